@@ -257,6 +257,9 @@ def check(run):
     run.guard(heap_order, funcs)
     run.guard(nnrules.shift_reciprocity, funcs, 'C17')
     run.guard(iterator_next, funcs)
+    from . import buildrules as BR
+    run.guard(BR.check_direct_build_closure, funcs, 'C17')      # the search is centred on the generator the cell is built for (self first, distance 0)
+    run.guard(BR.check_integrator_closures, funcs, 'C17')
     if run.inconclusive and not run.violations:
         # part of the search could not be encoded for this tree (construct outside the model table): no solver verdict on it; the statement of
         # C17 is evaluated on real visit sequences - a violation observed there is real, observing nothing leaves the run inconclusive
